@@ -365,8 +365,9 @@ pub fn judge(sc: &Scenario) -> Judgement {
     let mut diag = false;
     let mut want_resp: Vec<(i64, Option<Option<String>>)> = vec![]; // (id, Some(probe expectation))
     let mut want_diag: Vec<(String, String)> = vec![]; // (uri, text at that point)
+    let mut want_step: Vec<usize> = vec![]; // script index of the write
     let mut closed_probe = 0;
-    for st in &sc.script {
+    for (step_idx, st) in sc.script.iter().enumerate() {
         match &st.op {
             ClientOp::Initialize { id, diag: d } => {
                 diag = *d;
@@ -375,6 +376,7 @@ pub fn judge(sc: &Scenario) -> Judgement {
             ClientOp::Open { uri, text } => {
                 docs.insert(uri.clone(), text.clone());
                 want_diag.push((uri.clone(), text.clone()));
+                want_step.push(step_idx);
             }
             ClientOp::Change { uri, edits } => {
                 if let Some(t) = docs.get_mut(uri) {
@@ -382,6 +384,7 @@ pub fn judge(sc: &Scenario) -> Judgement {
                         crate::h::client::apply_edit(t, e);
                     }
                     want_diag.push((uri.clone(), t.clone()));
+                    want_step.push(step_idx);
                 }
             }
             ClientOp::Close { uri } => {
@@ -506,11 +509,15 @@ pub fn judge(sc: &Scenario) -> Judgement {
         }
     }
     // (c), (d) diagnostics
+    let mut note_ticks: Vec<u64> = vec![];
     let notes: Vec<(&String, &Value)> = rec
         .frames
         .iter()
         .filter_map(|f| match &f.msg {
-            RxMsg::Notification { method, params } if method == "textDocument/publishDiagnostics" => Some((method, params)),
+            RxMsg::Notification { method, params } if method == "textDocument/publishDiagnostics" => {
+                note_ticks.push(f.tick);
+                Some((method, params))
+            }
             _ => None,
         })
         .collect();
@@ -538,7 +545,7 @@ pub fn judge(sc: &Scenario) -> Judgement {
             .all(|((_, p), (u, _))| p.get("uri").and_then(Value::as_str) == Some(u.as_str()));
     j.probe("publications aligned one-to-one with the writes", aligned as u64);
     if !aligned {
-        relaxed_diagnostics(sc, &rec, &notes, &want_diag, &mut j);
+        relaxed_diagnostics(sc, &rec, &notes, &note_ticks, &want_diag, &want_step, &mut j);
         return j;
     }
     let mut last_per_uri: BTreeMap<&String, usize> = BTreeMap::new();
@@ -563,26 +570,10 @@ pub fn judge(sc: &Scenario) -> Judgement {
             let mut gotd = params.get("diagnostics").cloned().unwrap_or(Value::Null);
             strip_nulls(&mut gotd);
             if gotd != want {
-                // which text do the published diagnostics describe? if the server's own document
-                // at that point has the right text, the analysis (C01) is off, not the ordering
-                let obs = rec.doc_obs.get(k);
-                if obs.map_or(false, |o| &o.doc.text == text) {
-                    j.notes.push(format!(
-                        "other-property=C01 diagnostics #{k} for {uri} differ from the fresh analysis of the same text"
-                    ));
-                    continue;
-                }
-                j.violate(
-                    ID,
-                    if is_last { "last-diagnostics" } else { "diagnostics-content" },
-                    "diagnostics-describe-other-text".into(),
-                    format!(
-                        "publishDiagnostics #{k} for {uri} does not describe the content at that point ({}): got {} expected {}",
-                        tail(text),
-                        gotd,
-                        want
-                    ),
-                );
+                // not what the one-publication-per-write reading expects at this index: judge the
+                // whole sequence by the clauses the property states (a coalescing / clearing
+                // server can be aligned by count and URI by coincidence)
+                relaxed_diagnostics(sc, &rec, &notes, &note_ticks, &want_diag, &want_step, &mut j);
                 return j;
             }
         }
@@ -597,34 +588,55 @@ fn relaxed_diagnostics(
     sc: &Scenario,
     rec: &runner::RunRecord,
     notes: &[(&String, &Value)],
+    note_ticks: &[u64],
     want_diag: &[(String, String)],
+    want_step: &[usize],
     j: &mut Judgement,
 ) {
     let mut versions: BTreeMap<&str, Vec<&String>> = BTreeMap::new();
-    for (u, t) in want_diag {
+    // tick at which the write that produced a version had been sent completely: a publication can
+    // only describe versions written before it arrived
+    let mut sent_at: BTreeMap<&str, Vec<u64>> = BTreeMap::new();
+    for ((u, t), step) in want_diag.iter().zip(want_step.iter()) {
         versions.entry(u.as_str()).or_default().push(t);
+        sent_at.entry(u.as_str()).or_default().push(rec.sent_tick.get(*step).copied().unwrap_or(0));
     }
-    let mut closed_ever: BTreeMap<&str, bool> = BTreeMap::new();
     let mut open_at_end: BTreeMap<&str, bool> = BTreeMap::new();
-    for st in &sc.script {
-        match &st.op {
-            ClientOp::Open { uri, .. } => {
-                open_at_end.insert(uri.as_str(), true);
+    // version indices (per document) behind which the document was closed
+    let mut close_after: BTreeMap<&str, Vec<usize>> = BTreeMap::new();
+    {
+        let mut count: BTreeMap<&str, usize> = BTreeMap::new();
+        let mut w = 0;
+        for (i, st) in sc.script.iter().enumerate() {
+            match &st.op {
+                ClientOp::Open { uri, .. } => {
+                    open_at_end.insert(uri.as_str(), true);
+                }
+                ClientOp::Close { uri } => {
+                    if open_at_end.get(uri.as_str()).copied().unwrap_or(false) {
+                        if let Some(c) = count.get(uri.as_str()) {
+                            close_after.entry(uri.as_str()).or_default().push(c - 1);
+                        }
+                    }
+                    open_at_end.insert(uri.as_str(), false);
+                }
+                ClientOp::Exit => break,
+                _ => {}
             }
-            ClientOp::Close { uri } => {
-                closed_ever.insert(uri.as_str(), true);
-                open_at_end.insert(uri.as_str(), false);
+            while w < want_step.len() && want_step[w] <= i {
+                *count.entry(want_diag[w].0.as_str()).or_insert(0) += 1;
+                w += 1;
             }
-            ClientOp::Exit => break,
-            _ => {}
         }
     }
     let mut pubs: BTreeMap<String, Vec<Value>> = BTreeMap::new();
-    for (_, p) in notes {
+    let mut pub_ticks: BTreeMap<String, Vec<u64>> = BTreeMap::new();
+    for (k, (_, p)) in notes.iter().enumerate() {
         let uri = p.get("uri").and_then(Value::as_str).unwrap_or("").to_string();
         let mut d = p.get("diagnostics").cloned().unwrap_or(Value::Null);
         strip_nulls(&mut d);
-        pubs.entry(uri).or_default().push(d);
+        pubs.entry(uri.clone()).or_default().push(d);
+        pub_ticks.entry(uri).or_default().push(note_ticks.get(k).copied().unwrap_or(u64::MAX));
     }
     for (uri, ps) in &pubs {
         let Some(vs) = versions.get(uri.as_str()) else {
@@ -638,37 +650,74 @@ fn relaxed_diagnostics(
         };
         let want: Vec<Value> = vs.iter().map(|t| expected_diagnostics(t)).collect();
         let empty = Value::Array(vec![]);
-        let mut cur = 0usize;
-        for (n, p) in ps.iter().enumerate() {
-            match (cur..want.len()).find(|&i| &want[i] == p) {
-                Some(i) => cur = i,
-                None => {
-                    if *p == empty && closed_ever.get(uri.as_str()).copied().unwrap_or(false) {
-                        continue; // clearing the diagnostics of a closed document
-                    }
-                    // the analysis (C01), not the ordering, is off if this is what the server's
-                    // own document with the right text yields
-                    let own = rec.doc_obs.iter().any(|o| {
-                        &o.uri == uri
-                            && vs.iter().any(|t| **t == o.doc.text)
-                            && super::c01::diag_json_pub(&o.doc).as_ref() == Some(p)
-                    });
-                    if own {
-                        j.notes.push(format!("other-property=C01 a publication for {uri} differs from the fresh analysis of the same text"));
-                        continue;
-                    }
-                    j.violate(
-                        ID,
-                        "diagnostics-content",
-                        "diagnostics-describe-other-text".into(),
-                        format!(
-                            "publication #{n} for {uri} describes no content that document held at or after the content of the previous publication (stale, foreign or out of order): {}",
-                            short(&p.to_string())
-                        ),
-                    );
-                    return;
+        let sent = &sent_at[uri.as_str()];
+        let ticks = &pub_ticks[uri];
+        let bounds: &[usize] = close_after.get(uri.as_str()).map_or(&[], |v| v.as_slice());
+        // Is there an assignment publication -> version (non-decreasing, causally possible) or
+        // -> "clearing at a close" that explains the whole sequence? Diagnostics of different
+        // versions can be equal (e.g. empty), so this is a search, not a greedy scan.
+        let mut failed: std::collections::HashSet<(usize, usize)> = Default::default();
+        let mut furthest = 0usize;
+        fn explain(
+            n: usize,
+            lo: usize,
+            ps: &[Value],
+            want: &[Value],
+            sent: &[u64],
+            ticks: &[u64],
+            bounds: &[usize],
+            empty: &Value,
+            failed: &mut std::collections::HashSet<(usize, usize)>,
+            furthest: &mut usize,
+        ) -> bool {
+            if n == ps.len() {
+                return true;
+            }
+            *furthest = (*furthest).max(n);
+            if failed.contains(&(n, lo)) {
+                return false;
+            }
+            let p = &ps[n];
+            for i in lo..want.len() {
+                if sent[i] <= ticks[n] && &want[i] == p && explain(n + 1, i, ps, want, sent, ticks, bounds, empty, failed, furthest) {
+                    return true;
                 }
             }
+            if p == empty {
+                for &k in bounds.iter().filter(|&&k| k >= lo || (lo == 0 && k == 0)) {
+                    if explain(n + 1, k + 1, ps, want, sent, ticks, bounds, empty, failed, furthest) {
+                        return true;
+                    }
+                }
+            }
+            failed.insert((n, lo));
+            false
+        }
+        if !explain(0, 0, ps, &want, sent, ticks, bounds, &empty, &mut failed, &mut furthest) {
+            let n = furthest;
+            let p = &ps[n];
+            // the analysis (C01), not the ordering, is off if this is what the server's own
+            // document with the right text yields
+            let own = rec.doc_obs.iter().any(|o| {
+                &o.uri == uri
+                    && vs.iter().any(|t| **t == o.doc.text)
+                    && super::c01::diag_json_pub(&o.doc).as_ref() == Some(p)
+                    && !want.contains(p)
+            });
+            if own {
+                j.notes.push(format!("other-property=C01 a publication for {uri} differs from the fresh analysis of the same text"));
+                continue;
+            }
+            j.violate(
+                ID,
+                "diagnostics-content",
+                "diagnostics-describe-other-text".into(),
+                format!(
+                    "the publications for {uri} cannot be explained as descriptions of contents that document held, in order (first inexplicable one: #{n}, stale, foreign or out of order): {}",
+                    short(&p.to_string())
+                ),
+            );
+            return;
         }
     }
     for (uri, vs) in &versions {
